@@ -76,24 +76,8 @@ Definition lin_fuel : nat := 50000.
 Definition a64_outer : nat := 2000.
 Definition a64_inner : nat := 2000.
 
-(* the second known defect: `switch` on a spilled variable with a jump table.  The generic code calls
-   add(temp, temp, tag); the (Register, Spill) arm of `op` loads the spilled tag into TEMP, which is
-   the first operand:  ADR X2, table; LDR X2, [SP, o]; ADD X2, X2, X2; BR X2.
-   [patch_switch] is the code with the tag loaded into TEMP2 instead (the proposed repair). *)
-Fixpoint patch_switch (cs : list acode) : list acode * bool :=
-  match cs with
-  | ADR (X 2) l :: LDR (X 2) SP o :: ADD (X 2) (X 2) (X 2) :: r =>
-      let '(r', _) := patch_switch r in
-      (ADR (X 2) l :: LDR (X 3) SP o :: ADD (X 2) (X 2) (X 3) :: r', true)
-  | c :: r => let '(r', b) := patch_switch r in (c :: r', b)
-  | [] => ([], false)
-  end%N.
-
-(* executable form of C07 on the implementation's output.  A mismatch is attributed to a known
-   defect only if it DISAPPEARS under the corresponding repair:
-   - link register not saved (DESIGN.md 7.6): the program prints with exactly 13 live variables and
-     the run is right when the external call is assumed to preserve the link register;
-   - switch on a spilled variable: the run is right on [patch_switch] of the code. *)
+(* executable form of C07 on the implementation's output: the AxCut linear machine against the
+   emitted code run on the ISA model, for every argument tuple on which the source run is defined. *)
 Definition sem_check_a64 (p : prog) (cs : list acode) (argss : list (list Z)) : option string :=
   fold_left (fun acc args =>
     match acc with
@@ -104,18 +88,7 @@ Definition sem_check_a64 (p : prog) (cs : list acode) (argss : list (list Z)) : 
         | OExit _ =>
             let got := fst (run_a64 a64_outer a64_inner cs args) in
             if obs_eqb ref got then None
-            else
-              let at13 := print_at_lr_boundary p in
-              let '(cs', patched) := patch_switch cs in
-              let cls :=
-                if at13 && obs_eqb ref (fst (run_a64_gen true a64_outer a64_inner cs args))
-                then "class=a64-link-register-not-saved"
-                else if patched && obs_eqb ref (fst (run_a64 a64_outer a64_inner cs' args))
-                then "class=a64-switch-on-spilled-variable"
-                else if at13 && patched && obs_eqb ref (fst (run_a64_gen true a64_outer a64_inner cs' args))
-                then "class=a64-link-register-not-saved,a64-switch-on-spilled-variable"
-                else "class=a64-semantic-mismatch" in
-              Some (cls ++ " args=" ++ show (sL sZ args) ++ " expected=" ++ show (s_obs ref) ++ " got=" ++ show (s_obs got))
+            else Some ("class=a64-semantic-mismatch args=" ++ show (sL sZ args) ++ " expected=" ++ show (s_obs ref) ++ " got=" ++ show (s_obs got))
         | _ => None
         end
     end) argss None.
@@ -139,15 +112,8 @@ Definition codegen_a64_case (i r : sexp) : verdict :=
               match g_acodes cs, getN n with
               | Some cs, Some n =>
                   let r' := L [L (map s_acode cs); sN n] in
-                  let agree := match m with
-                               | Ok _ => String.eqb (show (s_res_acodes m)) (show r')
-                               | Err _ => false
-                               end in
                   match sem_check_a64 p cs argss with
-                  | Some why =>
-                      (* a known-class violation must not hide a broken correspondence *)
-                      if agree || prefix "class=a64-semantic-mismatch" why then VViol why
-                      else VDiff (show (s_res_acodes m)) (show r')
+                  | Some why => VViol why
                   | None =>
                       match m with
                       | Ok (mc, _, _) =>
